@@ -39,7 +39,7 @@ ASSUMPTIONS = ['dense numpy arithmetic (matmul, norm, cond, inv) is the referenc
                'a requested tolerance t is accepted as met when the recomputed residual <= t*(1+1e-9) + 1e-12*(|A||x|+|b|)',
                'with atol=rtol=0 a residual <= 1e-7*(|A|(|x|+|x0|)+|b|) is demanded only when the reduced matrix has condition number < 1e6',
                'backends: numpy always, scipy when importable from /verif/.deps (MKL not installed)',
-               'matrices / answers whose residual norm (a sum of squares) is not representable (|A||x|+|b| >= 1e150) are only checked for finiteness and constraints',
+               'matrices / answers whose residual norm (a sum of squares) is not representable (|A||x|+|b| >= 1e150, or <= 1e-150 for the lhs0 comparison) are only checked for finiteness and constraints',
                'a request that runs longer than 60 s is counted as a timeout, not judged (hangs are not this property)',
                'miniter > 1 is not requested from the finite-stage Arnoldi method; complex-valued systems, rconstrain without constrain and rconstrain combined with float constraints (rejected by an assert) are not enumerated']
 BUDGET_S = {'quick': 1500, 'thorough': 6000}
